@@ -123,8 +123,17 @@ fn universe(r: &mut StdRng) -> Value {
 		let cands: Vec<_> = arts.iter().filter(|x| if is_jar { x.2 > own_layer } else { x.2 + 1 >= layers }).cloned().collect();
 		if cands.is_empty() { continue; }
 		for _ in 0..n_dep {
-			let (g, a, _layer, vs) = pick(r, &cands).clone();
-			let (c, t) = variant(r);
+			let (mut g, mut a, _layer, mut vs) = pick(r, &cands).clone();
+			let (mut c, mut t) = variant(r);
+			// often depend on something the POM's management knows, so that omitted versions are common
+			let known: Vec<&Key> = managed.iter().filter(|k| cands.iter().any(|x| x.0 == k.0 && x.1 == k.1)).collect();
+			if !known.is_empty() && r.gen_bool(0.45) {
+				let k = *pick(r, &known);
+				let x = cands.iter().find(|x| x.0 == k.0 && x.1 == k.1).unwrap();
+				(g, a, vs) = (x.0.clone(), x.1.clone(), x.3.clone());
+				c = k.2.clone();
+				t = if k.3 == "jar" { "" } else { "war" };
+			}
 			let mut d = json!({"g": g, "a": a, "c": c, "t": t, "v": pick(r, &vs),
 				"s": if r.gen_bool(0.4) { *pick(r, &["compile", "runtime", "runtime", "provided", "test"]) } else { "" },
 				"o": *pick(r, &["", "", "", "", "", "true", "false"])});
@@ -141,6 +150,24 @@ fn universe(r: &mut StdRng) -> Value {
 		let mut bad = false;
 		while let Some(p) = cur { if !poms[p].deps.is_empty() && poms[i].layer + 1 >= layers { bad = true; } cur = poms[p].par; }
 		if bad { poms[i].par = None; poms[i].inh = false; }
+	}
+	// now and then a child manages (again) what an ancestor depends on: the child's entry is the one that counts
+	for i in 0..poms.len() {
+		let mut cur = poms[i].par;
+		let mut extra = vec![];
+		while let Some(p) = cur {
+			for d in &poms[p].deps {
+				if r.gen_bool(0.3) {
+					let vs = &arts.iter().find(|x| d["g"] == x.0.as_str() && d["a"] == x.1.as_str()).unwrap().3;
+					extra.push(json!({"g": d["g"], "a": d["a"], "c": d["c"], "t": d["t"], "v": pick(r, vs),
+						"s": if r.gen_bool(0.3) { scope(r) } else { "" }}));
+				}
+			}
+			cur = poms[p].par;
+		}
+		for e in extra {
+			if !poms[i].mg.iter().any(|m| m["s"] != "import" && key_of(m) == key_of(&e)) { poms[i].mg.insert(0, e); }
+		}
 	}
 	// an omitted version must still be managed after the edits above
 	for i in 0..poms.len() {
